@@ -226,6 +226,9 @@ func spec_cand(l *LALR1, tr Transistor, a *Action, sy int) bool {
 //@ loop 3: decreases len(res)
 //@ loop 2: order_assumed each iteration reads and writes only the candidate list of its own symbol (and allocates); the warning text goes to stdout
 // one fold step: precedence first, yacc defaults otherwise (C04)
+//@ before_stmt "res[1] = act" forall k int :: 0 <= k && k < len(res) ==> validAct(lalr, tranlist, res[k], syIndex) && allocated(res[k])
+//@ before_stmt "res[1] = act" act != nil && allocated(act) && validAct(lalr, tranlist, act, syIndex)
+//@ before_stmt "res[1] = act" forall sy, k int :: has(action_set, sy) && 0 <= k && k < len(action_set[sy]) ==> validAct(lalr, tranlist, action_set[sy][k], sy) && allocated(action_set[sy][k])
 //@ before_stmt [C04] "res[1] = act" spec_sr(res[0], res[1]) && spec_R(res[0], res[1]).Prec != -1 && spec_S(res[0], res[1]).Prec != -1 && spec_R(res[0], res[1]).Prec > spec_S(res[0], res[1]).Prec ==> act == spec_R(res[0], res[1])
 //@ before_stmt [C04] "res[1] = act" spec_sr(res[0], res[1]) && spec_R(res[0], res[1]).Prec != -1 && spec_S(res[0], res[1]).Prec != -1 && spec_R(res[0], res[1]).Prec < spec_S(res[0], res[1]).Prec ==> act == spec_S(res[0], res[1])
 //@ before_stmt [C04] "res[1] = act" spec_sr(res[0], res[1]) && spec_R(res[0], res[1]).Prec != -1 && spec_R(res[0], res[1]).Prec == spec_S(res[0], res[1]).Prec &&
